@@ -149,9 +149,11 @@ void COSyncHandler (CO_SYNC *sync)
 
     for (i = 0; i < CO_RPDO_N; i++) {
         if ((sync->RPdo[i] != 0) && (sync->RFrm[i].Identifier != 0)) {
-            /* apply each received frame once */
-            CORPdoWrite(sync->RPdo[i], &sync->RFrm[i]);
-            COPdoSyncUpdate(sync->RPdo[i]);
+            /* apply each received frame once, in OPERATIONAL only */
+            if ((sync->Node->Nmt.Allowed & CO_PDO_ALLOWED) != 0) {
+                CORPdoWrite(sync->RPdo[i], &sync->RFrm[i]);
+                COPdoSyncUpdate(sync->RPdo[i]);
+            }
             sync->RFrm[i].Identifier = 0;
         }
     }
